@@ -48,6 +48,11 @@ fn case(ctx: &mut Ctx, r: &Range, len: usize, carrier: usize) {
         // split inside map
         6 => (vec![Op::Split(";".into(), Range::Range(None, None, false)), Op::Map(vec![Op::Split(",".into(), r.clone()), Op::Join("+".into())]), Op::Join(";".into())],
               format!("{};{}", LETTERS[..len].join(","), LETTERS[..len.min(2)].join(","))),
+        // split applied to a list (the parts of an earlier split are split again and flattened)
+        8 => (vec![Op::Split(",".into(), Range::Range(None, None, false)), Op::Split("-".into(), r.clone()), Op::Join("+".into())],
+              LETTERS[..len].chunks(2).map(|c| c.join("-")).collect::<Vec<_>>().join(",")),
+        // slice directly after sort
+        9 => (vec![Op::Split(",".into(), Range::Range(None, None, false)), Op::Sort(crate::ast::SDir::Desc), Op::Slice(r.clone()), Op::Join(",".into())], LETTERS[..len].join(",")),
         // a separator of two characters that overlaps itself, items ending in its first character
         _ => (vec![Op::Split("--".into(), r.clone())], (0..len).map(|k| if k % 2 == 0 { format!("{}-", LETTERS[k]) } else { LETTERS[k].to_string() }).collect::<Vec<_>>().join("--")),
     };
@@ -72,7 +77,7 @@ fn case(ctx: &mut Ctx, r: &Range, len: usize, carrier: usize) {
     if ctx.rep.samples.len() < 6 && len == 5 && matches!(r, Range::Range(Some(-3), Some(9), true)) {
         ctx.rep.sample(format!("{} on {:?} -> {}", t.text, input, t.real.show()));
     }
-    ctx.rep.bump(match carrier { 0 => "carrier_split", 1 => "carrier_slice", 2 => "carrier_substring_ascii", 3 => "carrier_substring_unicode", 4 => "carrier_shorthand", 5 => "carrier_split_in_pipeline", 6 => "carrier_split_in_map", _ => "carrier_split_overlapping_separator" });
+    ctx.rep.bump(match carrier { 0 => "carrier_split", 1 => "carrier_slice", 2 => "carrier_substring_ascii", 3 => "carrier_substring_unicode", 4 => "carrier_shorthand", 5 => "carrier_split_in_pipeline", 6 => "carrier_split_in_map", 8 => "carrier_split_on_list", 9 => "carrier_slice_after_sort", _ => "carrier_split_overlapping_separator" });
     judge(ctx, "C06", &t, &ops, &input, "apply_range_is_select / C06_carriers");
     // no index or range the parser accepts causes an error (on a well-typed carrier)
     if matches!(t.real, crate::driver::Out::Err | crate::driver::Out::Panic) && t.parsed_same {
@@ -85,7 +90,7 @@ fn case(ctx: &mut Ctx, r: &Range, len: usize, carrier: usize) {
 pub fn run(opts: &Opts) -> Report {
     let ranges = all_ranges();
     let mut cases: Vec<(Range, usize, usize)> = Vec::new();
-    for r in &ranges { for l in 0..=7usize { for c in 0..8 { cases.push((r.clone(), l, c)); } } }
+    for r in &ranges { for l in 0..=7usize { for c in 0..10 { cases.push((r.clone(), l, c)); } } }
     let exhaustive_n = cases.len() as u64;
     let random_n = opts.cases(4_000, 200_000);
     let cases_ref = &cases;
@@ -98,7 +103,7 @@ pub fn run(opts: &Opts) -> Report {
             } else {
                 let r = crate::gens::range(&mut ctx.rng);
                 let l = ctx.rng.below(8);
-                let c = ctx.rng.below(8);
+                let c = ctx.rng.below(10);
                 case(ctx, &r, l, c);
             }
         });
